@@ -93,6 +93,11 @@ func genC05(t *rapid.T) C05Case {
 			c.DLimK = uni(t, "dlimAny", -sb, sb)
 		}
 		c.DMem = int64(rapid.IntRange(-5, 10).Draw(t, "dmem"))
+		if vt.Chance(t, "limitOnly", 12) {
+			// only the limit changes: for a bound workload the request follows the limit upwards
+			c.DK, c.DMem = 0, 0
+			c.DLimK = uni(t, "dlimOnly", 1, 2*sb)
+		}
 	}
 	return c
 }
